@@ -89,6 +89,14 @@ Definition zdot_nd_spec (ς : sstate Z) (ta tb : nat) (reuse : option nat) : opt
 Definition zdot_nd_spec_incr (ς : sstate Z) (ta tb : nat) (r : nat) : option (sstate Z * outcome Z) :=
   zdot_nd_spec_gen ς ta tb (3, r).
 
+(* WithReuse and WithIncr together: the product lands in the reuse tensor, which is then added into
+   the increment tensor *)
+Definition zdot_nd_spec_both (ς : sstate Z) (ta tb : nat) (r i : nat) : option (sstate Z * outcome Z) :=
+  match zdot_nd_spec_gen ς ta tb (2, r) with
+  | Some (ς1, RNew _ _) => zstep_spec ς1 (ZBin 0 i r MUnsafe true)
+  | x => x
+  end.
+
 (* the named condition under which the reuse path is right: the reuse tensor is a plain tensor
    (no view, no pending transpose, row-major) whose window holds exactly the product *)
 Definition dot_nd_reuse_plain (σ : store Z) (r : nat) (n : Z) : bool :=
